@@ -90,8 +90,10 @@ func main() {
 	rep.Engines = []string{"packer", "f8race", "udprelay"}
 	rep.Rule = "engine packer: scripts of pack/release over 1..3 sessions of one DirectUDPClient x 1..3 domains + IP targets, every resolution held and released in script order " +
 		"(non-trivial: >= 2 sessions and at least one blocked resolution; distinct by script); engine f8race: one directed probe; " +
-		"engine udprelay: one case = one relay run (server protocol x client protocol x batch mode x script of sends / replies / address changes / garbage), " +
-		"non-trivial if at least two sessions exchanged datagrams in both directions; distinct by (protocols, script)"
+		"engine udprelay: one case = one relay run through service.Config->Manager: server {none,socks5,ss2022,direct} x client {direct,none,socks5,ss2022} x batch {no,sendmmsg} x " +
+		"script of send / reply / garbage (6 kinds, from known and never-seen addresses) / move (client address change) / burst (40 garbage datagrams, goroutine+fd accounting) / " +
+		"stall (held resolution while 64+k datagrams fill the send queue), then an optional concurrent flood with resolutions released in random order; " +
+		"non-trivial if at least two relay sessions carried datagrams in both directions; distinct by (protocols, script)"
 	dns := installDNS()
 	var err error
 	shared, ferr := runtimeFacts(rep)
